@@ -1011,6 +1011,7 @@ type ReplayWorld struct {
 	World  int   `json:"world"`
 	Step   int   `json:"step"`
 	VIP    bool  `json:"vip"`
+	Resp   bool  `json:"resp,omitempty"`
 	Export int   `json:"export,omitempty"` // 1 + index of an export-side case (then World/Step are unused)
 }
 
@@ -1089,6 +1090,11 @@ type snapClass struct {
 	hasUps     bool // a connect service in the snapshot names upstreams
 	storedUps  bool // a stored row of the peer in a snapshot slot names upstreams
 	canonNames bool
+	// causes, per row: where a recorded defect can show
+	oldNames     map[string]bool    // stored node names of the peer whose ID the snapshot carries under another name
+	ownerChanged map[[2]string]bool // (node, check id) stored and received with different service ids
+	notOwned     map[[3]string]bool // (node, instance service id, check id): stored check in that slot, not listed, no retained owner
+	respelled    map[string]bool    // lower-cased "node", "node\x00sid", "node\x00\x00cid": stored under another spelling than received
 }
 
 // classify evaluates, on the received data and the prior catalog only, the hypotheses of the
@@ -1098,7 +1104,8 @@ type snapClass struct {
 //	idsStable = check_ids_keep_owner     owned     = slots_owned
 //	hasUps / storedUps = the snapshot / a stored row of the peer names upstreams
 func classify(in *oracleIn) snapClass {
-	cl := snapClass{coherent: true, idsStable: true, owned: true, canonNames: true}
+	cl := snapClass{coherent: true, idsStable: true, owned: true, canonNames: true,
+		oldNames: map[string]bool{}, ownerChanged: map[[2]string]bool{}, notOwned: map[[3]string]bool{}, respelled: map[string]bool{}}
 	p, sn := in.peer, in.service
 	type nk = [2]string
 	nodeOf := map[string]NodeRow{}
@@ -1106,7 +1113,7 @@ func classify(in *oracleIn) snapClass {
 	chkByNode := map[nk]ChkRow{} // (node, id) -> row
 	insts := toInsts(p, in.nodes)
 	for _, i := range insts {
-		if i.Svc.Name != sn || i.Svc.ID == "" {
+		if !strings.EqualFold(i.Svc.Name, sn) || i.Svc.ID == "" {
 			cl.coherent = false
 		}
 		if o, ok := nodeOf[i.Node.Name]; ok {
@@ -1166,12 +1173,34 @@ func classify(in *oracleIn) snapClass {
 			}
 		}
 	}
+	// names that memdb holds to be the same (lower-cased keys) but that are spelled differently
+	lo := strings.ToLower
+	for _, i := range insts {
+		for _, n := range in.catBefore.Nodes {
+			if n.Peer == p && lo(n.Name) == lo(i.Node.Name) && n.Name != i.Node.Name {
+				cl.respelled[lo(n.Name)] = true
+			}
+		}
+		for _, z := range in.catBefore.Svcs {
+			if z.Peer == p && lo(z.Node) == lo(i.Node.Name) && lo(z.ID) == lo(i.Svc.ID) && (z.Node != i.Node.Name || z.ID != i.Svc.ID) {
+				cl.respelled[lo(z.Node)+"\x00"+lo(z.ID)] = true
+			}
+		}
+		for _, k := range i.Chks {
+			for _, c := range in.catBefore.Chks {
+				if c.Peer == p && lo(c.Node) == lo(k.Node) && lo(c.ID) == lo(k.ID) && (c.Node != k.Node || c.ID != k.ID) {
+					cl.respelled[lo(c.Node)+"\x00\x00"+lo(c.ID)] = true
+				}
+			}
+		}
+	}
 	// ids_keep_names
 	for _, n := range in.catBefore.Nodes {
 		if n.Peer == p && n.ID != "" {
 			for _, i := range insts {
 				if i.Node.ID == n.ID && i.Node.Name != n.Name {
 					cl.rename = true
+					cl.oldNames[n.Name] = true
 				}
 			}
 		}
@@ -1194,6 +1223,7 @@ func classify(in *oracleIn) snapClass {
 			for _, k := range i.Chks {
 				if c.Node == i.Node.Name && c.ID == k.ID && k.SID != c.SID {
 					cl.idsStable = false
+					cl.ownerChanged[[2]string{c.Node, c.ID}] = true
 				}
 			}
 		}
@@ -1223,6 +1253,7 @@ func classify(in *oracleIn) snapClass {
 			}
 			if !ok {
 				cl.owned = false
+				cl.notOwned[[3]string{i.Node.Name, i.Svc.ID, c.ID}] = true
 			}
 		}
 	}
@@ -1302,17 +1333,7 @@ func oracle(in *oracleIn, vip bool) (string, map[string]interface{}, map[string]
 		if !cl.coherent {
 			return "", nil, flags // not something a catalog sends: only the frame is owed
 		}
-		// the first hypothesis of C17_mirror_partial that fails names the class
-		class := "none"
-		switch {
-		case cl.rename:
-			class = "node-id-moves"
-		case !cl.idsStable:
-			class = "check-owner-changes"
-		case !cl.owned:
-			class = "slot-not-owned"
-		}
-		flags["mirror_applicable"] = class == "none"
+		flags["mirror_applicable"] = !cl.rename && cl.idsStable && cl.owned
 		// 3. mirror
 		_, got, err := in.im.store.CheckServiceNodes(nil, in.service, nil, in.peer)
 		if err != nil {
@@ -1326,29 +1347,51 @@ func oracle(in *oracleIn, vip bool) (string, map[string]interface{}, map[string]
 			}
 		}
 		if !reflect.DeepEqual(want, have) {
+			// every difference must be explained by the cause of a recorded defect AT THAT ROW;
+			// the first one that is not makes the whole event unexplained
+			diffs := viewDiffs(want, have)
+			first, firstCause := diffs[0], ""
+			for i, d := range diffs {
+				cause := diffCause(cl, d)
+				if i == 0 {
+					firstCause = cause
+				}
+				if cause == "none" {
+					first, firstCause = d, cause
+					break
+				}
+			}
 			wb, _ := json.Marshal(want)
 			hb, _ := json.Marshal(have)
-			sig := map[string]interface{}{"kind": "mirror", "class": class, "diff": viewDiff(want, have)}
-			return "mirror(" + class + "): want " + string(wb) + " have " + string(hb), sig, flags
+			sig := map[string]interface{}{"kind": "mirror", "cause": firstCause, "diff": first.kind}
+			return fmt.Sprintf("mirror(%s, %s at %s/%s/%s): want %s have %s", firstCause, first.kind, first.node, first.sid, first.cid, wb, hb), sig, flags
 		}
 		// 4. other services of the same peer keep their instances and service-level checks
-		if msg := samePeerFrame(in); msg != "" {
-			return msg, map[string]interface{}{"kind": "same-peer-frame", "class": map[bool]string{true: "node-id-moves", false: "none"}[cl.rename]}, flags
+		if msg, node := samePeerFrame(in); msg != "" {
+			cause := "none"
+			if cl.oldNames[node] {
+				cause = "node-id-moves" // the row sat on a node that the store deleted because its ID moved
+			}
+			return msg, map[string]interface{}{"kind": "same-peer-frame", "cause": cause}, flags
 		}
 	case "list":
 		// 5. prune
+		// a catalog service name is what memdb holds it to be: compared lower-cased
 		keep := map[string]bool{}
+		spelled := map[string]string{}
 		for _, n := range in.names {
-			keep[n] = true
-			keep[n+peerstream.VerifSyntheticProxySuffix] = true
+			keep[strings.ToLower(n)] = true
+			keep[strings.ToLower(n+peerstream.VerifSyntheticProxySuffix)] = true
+			spelled[strings.ToLower(n)] = n
+			spelled[strings.ToLower(n+peerstream.VerifSyntheticProxySuffix)] = n + peerstream.VerifSyntheticProxySuffix
 		}
 		for _, s := range in.catAfter.Svcs {
-			if s.Peer == in.peer && !keep[s.Name] {
+			if s.Peer == in.peer && !keep[strings.ToLower(s.Name)] {
 				return "prune: service " + s.Name + " still present", map[string]interface{}{"kind": "prune"}, flags
 			}
 		}
 		for _, s := range in.catBefore.Svcs {
-			if s.Peer == in.peer && keep[s.Name] {
+			if s.Peer == in.peer && keep[strings.ToLower(s.Name)] {
 				found := false
 				for _, t := range in.catAfter.Svcs {
 					if reflect.DeepEqual(t, s) {
@@ -1356,7 +1399,11 @@ func oracle(in *oracleIn, vip bool) (string, map[string]interface{}, map[string]
 					}
 				}
 				if !found {
-					return "prune: exported service row removed " + s.Name, map[string]interface{}{"kind": "prune-too-much"}, flags
+					cause := "none"
+					if spelled[strings.ToLower(s.Name)] != s.Name {
+						cause = "name-respelled" // the list spells the name differently from the rows
+					}
+					return "prune: exported service row removed " + s.Name, map[string]interface{}{"kind": "prune-too-much", "cause": cause}, flags
 				}
 			}
 		}
@@ -1364,31 +1411,36 @@ func oracle(in *oracleIn, vip bool) (string, map[string]interface{}, map[string]
 	return "", nil, flags
 }
 
-// viewDiff names the first kind of difference between the received and the stored view
-func viewDiff(want, have []viewInst) string {
+// viewDiffs lists the differences between the received and the stored view, row by row
+type vdiff struct{ kind, node, sid, cid string }
+
+func viewDiffs(want, have []viewInst) []vdiff {
 	key := func(v viewInst) string { return v.Node.Name + "\x00" + v.Svc.ID }
-	hm := map[string]viewInst{}
+	hm, wm := map[string]viewInst{}, map[string]viewInst{}
 	for _, v := range have {
 		hm[key(v)] = v
 	}
-	wm := map[string]viewInst{}
 	for _, v := range want {
 		wm[key(v)] = v
 	}
-	for k := range wm {
-		if _, ok := hm[k]; !ok {
-			return "missing-instance"
+	out := []vdiff{}
+	for _, w := range want {
+		if _, ok := hm[key(w)]; !ok {
+			out = append(out, vdiff{"missing-instance", w.Node.Name, w.Svc.ID, ""})
 		}
 	}
-	for k := range hm {
-		if _, ok := wm[k]; !ok {
-			return "extra-instance"
+	for _, h := range have {
+		if _, ok := wm[key(h)]; !ok {
+			out = append(out, vdiff{"extra-instance", h.Node.Name, h.Svc.ID, ""})
 		}
 	}
-	for k, w := range wm {
-		h := hm[k]
+	for _, w := range want {
+		h, ok := hm[key(w)]
+		if !ok {
+			continue
+		}
 		if w.Node != h.Node || !reflect.DeepEqual(w.Svc, h.Svc) {
-			return "content"
+			out = append(out, vdiff{"content", w.Node.Name, w.Svc.ID, ""})
 		}
 		wc, hc := map[string]ChkRow{}, map[string]ChkRow{}
 		for _, c := range w.Chks {
@@ -1397,23 +1449,59 @@ func viewDiff(want, have []viewInst) string {
 		for _, c := range h.Chks {
 			hc[c.ID] = c
 		}
-		for id := range wc {
-			if _, ok := hc[id]; !ok {
-				return "missing-check"
+		for _, c := range w.Chks {
+			if hcc, ok := hc[c.ID]; !ok {
+				out = append(out, vdiff{"missing-check", w.Node.Name, w.Svc.ID, c.ID})
+			} else if hcc != c {
+				out = append(out, vdiff{"content", w.Node.Name, w.Svc.ID, c.ID})
 			}
 		}
-		for id := range hc {
-			if _, ok := wc[id]; !ok {
-				return "extra-check"
-			}
-		}
-		for id, c := range wc {
-			if hc[id] != c {
-				return "content"
+		for _, c := range h.Chks {
+			if _, ok := wc[c.ID]; !ok {
+				out = append(out, vdiff{"extra-check", w.Node.Name, w.Svc.ID, c.ID})
 			}
 		}
 	}
-	return "order"
+	if len(out) == 0 {
+		out = append(out, vdiff{"order", "", "", ""})
+	}
+	return out
+}
+
+// diffCause: which recorded defect, if any, explains this difference at this row
+//
+//	node-id-moves        the row sits on a stored node whose ID the snapshot carries under another name
+//	                     (ensureNodeTxn deleted that node; what "had not changed" on it was skipped)
+//	check-owner-changes  a received check is missing and its id is stored on that node under another owner
+//	slot-not-owned       an extra check is a stored one that no retained instance of the service owns
+func diffCause(cl snapClass, d vdiff) string {
+	lo := strings.ToLower
+	if d.kind == "missing-instance" || d.kind == "missing-check" {
+		// the handler's Go maps are keyed by the spelling, memdb by the lower-cased name: the row
+		// is registered under the new spelling and deregistered under the old one (same key)
+		if cl.respelled[lo(d.node)] || cl.respelled[lo(d.node)+"\x00"+lo(d.sid)] ||
+			(d.cid != "" && cl.respelled[lo(d.node)+"\x00\x00"+lo(d.cid)]) {
+			return "name-respelled"
+		}
+	}
+	switch d.kind {
+	case "missing-instance":
+		if cl.oldNames[d.node] {
+			return "node-id-moves"
+		}
+	case "missing-check":
+		if cl.oldNames[d.node] {
+			return "node-id-moves"
+		}
+		if cl.ownerChanged[[2]string{d.node, d.cid}] {
+			return "check-owner-changes"
+		}
+	case "extra-check":
+		if cl.notOwned[[3]string{d.node, d.sid, d.cid}] {
+			return "slot-not-owned"
+		}
+	}
+	return "none"
 }
 
 func anyStoredUps(in *oracleIn) bool {
@@ -1425,7 +1513,7 @@ func anyStoredUps(in *oracleIn) bool {
 	return false
 }
 
-func samePeerFrame(in *oracleIn) string {
+func samePeerFrame(in *oracleIn) (string, string) {
 	type nk = [2]string
 	slot := map[nk]bool{}
 	snapChk := map[nk]bool{}
@@ -1462,13 +1550,13 @@ func samePeerFrame(in *oracleIn) string {
 		}
 		other[nk{s.Node, s.ID}] = true
 		if t, ok := after[[3]string{s.Peer, s.Node, s.ID}]; !ok || !reflect.DeepEqual(t, s) {
-			return fmt.Sprintf("same-peer-frame: instance %s/%s of service %s changed", s.Node, s.ID, s.Name)
+			return fmt.Sprintf("same-peer-frame: instance %s/%s of service %s changed", s.Node, s.ID, s.Name), s.Node
 		}
 		if !snapNode[s.Node] {
 			for _, n := range in.catBefore.Nodes {
 				if n.Peer == in.peer && n.Name == s.Node {
 					if t, ok := afterN[[2]string{n.Peer, n.Name}]; !ok || t != n {
-						return fmt.Sprintf("same-peer-frame: node %s of instance %s changed", n.Name, s.ID)
+						return fmt.Sprintf("same-peer-frame: node %s of instance %s changed", n.Name, s.ID), n.Name
 					}
 				}
 			}
@@ -1479,7 +1567,7 @@ func samePeerFrame(in *oracleIn) string {
 			continue
 		}
 		if t, ok := afterC[[3]string{c.Peer, c.Node, c.ID}]; !ok || t != c {
-			return fmt.Sprintf("same-peer-frame: check %s/%s of instance %s changed", c.Node, c.ID, c.SID)
+			return fmt.Sprintf("same-peer-frame: check %s/%s of instance %s changed", c.Node, c.ID, c.SID), c.Node
 		}
 	}
 	// nodes that are not in the snapshot and host no instance of the service keep every row
@@ -1488,17 +1576,17 @@ func samePeerFrame(in *oracleIn) string {
 			continue
 		}
 		if t, ok := afterN[[2]string{n.Peer, n.Name}]; !ok || t != n {
-			return fmt.Sprintf("same-peer-frame: uninvolved node %s changed", n.Name)
+			return fmt.Sprintf("same-peer-frame: uninvolved node %s changed", n.Name), n.Name
 		}
 		for _, c := range in.catBefore.Chks {
 			if c.Peer == in.peer && c.Node == n.Name {
 				if t, ok := afterC[[3]string{c.Peer, c.Node, c.ID}]; !ok || t != c {
-					return fmt.Sprintf("same-peer-frame: check %s on uninvolved node %s changed", c.ID, n.Name)
+					return fmt.Sprintf("same-peer-frame: check %s on uninvolved node %s changed", c.ID, n.Name), n.Name
 				}
 			}
 		}
 	}
-	return ""
+	return "", ""
 }
 
 // ---------------------------------------------------------------- worlds
@@ -1508,14 +1596,18 @@ type world struct {
 	im   *importer
 	ex   *exporter
 	vip  bool
+	resp bool // respelling world: names may differ in letter case between stored and received (oracle only)
 	id   int
 	step int
 }
 
-func newWorld(seed int64, id int, vip bool) *world {
+func newWorld(seed int64, id int, vip bool, resp bool) *world {
 	r := rand.New(rand.NewSource(seed*1000003 + int64(id)))
-	w := &world{r: r, im: newImporter(vip), ex: newExporter(), vip: vip, id: id}
+	w := &world{r: r, im: newImporter(vip), ex: newExporter(), vip: vip, resp: resp, id: id}
 	seedImporter(r, w.im)
+	if id%3 == 1 {
+		seedGateways(w.im)
+	}
 	for i := 0; i < 3+r.Intn(5); i++ {
 		w.ex.mutate(r)
 	}
@@ -1537,11 +1629,17 @@ func (w *world) event(caseID int) *Case {
 	w.im.be.log = nil
 	in := &oracleIn{peer: c.Peer, fullBefore: fb, catBefore: before, im: w.im}
 	var err error
-	switch k := r.Intn(20); {
+	k := r.Intn(20)
+	respellNow := w.resp && r.Intn(3) == 0
+	switch {
 	case k < 3:
 		c.Kind, c.Gen = "list", "list"
 		for _, n := range svcNames {
 			if r.Intn(2) == 0 {
+				if respellNow { // the exporter's config entry spells the name its own way
+					c.Gen = "list-respelled"
+					n = flipCase(n)
+				}
 				c.Names = append(c.Names, n)
 			}
 		}
@@ -1566,6 +1664,13 @@ func (w *world) event(caseID int) *Case {
 		default:
 			c.Gen, c.Service = "malformed", pick(r, svcNames)
 			nodes = malformed(r, c.Service)
+		}
+		if respellNow {
+			// what is stored, sent again with one name written in another letter case
+			c.Service = pick(r, svcNames[:2])
+			if re, what := respelled(r, w.im, c.Peer, c.Service); re != nil {
+				c.Gen, nodes = "respelled-"+what, re
+			}
 		}
 		c.Export = toInsts(c.Peer, nodes)
 		// the oracle keeps its own copy: the handler rewrites the structs it receives
@@ -1593,8 +1698,98 @@ func (w *world) event(caseID int) *Case {
 	in.fullAfter, in.catAfter, in.ops, in.err = fullDump(w.im.store), c.After, c.Ops, err
 	c.Oracle, c.Sig, c.Flags = oracle(in, w.vip)
 	hints(c, before)
-	c.ToCoq = !w.vip
+	c.ToCoq = !w.vip && !w.resp
 	return c
+}
+
+func flipCase(x string) string {
+	if x == "" {
+		return x
+	}
+	if up := strings.ToUpper(x[:1]) + x[1:]; up != x {
+		return up
+	}
+	return strings.ToLower(x)
+}
+
+// respelled: the instances stored for (peer, service), with one node name, service id or check
+// id written in another letter case (an agent restarted under another spelling of its name;
+// a service re-registered as "Web1"); nil when nothing is stored
+func respelled(r *rand.Rand, im *importer, peer, service string) ([]structs.CheckServiceNode, string) {
+	_, csn, err := im.store.CheckServiceNodes(nil, service, nil, peer)
+	if err != nil || len(csn) == 0 {
+		return nil, ""
+	}
+	out := []structs.CheckServiceNode{}
+	for _, c := range csn {
+		n := *c.Node
+		n.RaftIndex, n.PeerName = structs.RaftIndex{}, ""
+		s := *c.Service
+		s.RaftIndex, s.PeerName = structs.RaftIndex{}, ""
+		var cs structs.HealthChecks
+		for _, k := range c.Checks {
+			kk := *k
+			kk.RaftIndex, kk.PeerName = structs.RaftIndex{}, ""
+			cs = append(cs, &kk)
+		}
+		out = append(out, structs.CheckServiceNode{Node: &n, Service: &s, Checks: cs})
+	}
+	t := out[r.Intn(len(out))]
+	what := []string{"node", "service-id", "check-id"}[r.Intn(3)]
+	if what == "check-id" && len(t.Checks) == 0 {
+		what = "node"
+	}
+	switch what {
+	case "node":
+		old, nw := t.Node.Node, flipCase(t.Node.Node)
+		for _, c := range out {
+			if c.Node.Node == old {
+				c.Node.Node = nw
+				for _, k := range c.Checks {
+					k.Node = nw
+				}
+			}
+		}
+	case "service-id":
+		old, nw := t.Service.ID, flipCase(t.Service.ID)
+		t.Service.ID = nw
+		for _, k := range t.Checks {
+			if k.ServiceID == old {
+				k.ServiceID = nw
+			}
+		}
+	case "check-id":
+		k := t.Checks[r.Intn(len(t.Checks))]
+		old, nw := k.CheckID, types.CheckID(flipCase(string(k.CheckID)))
+		for _, c := range out { // a node-level check is listed under every instance of the node
+			if c.Node.Node == t.Node.Node {
+				for _, kk := range c.Checks {
+					if kk.CheckID == old {
+						kk.CheckID = nw
+					}
+				}
+			}
+		}
+	}
+	return out, what
+}
+
+// seedGateways: local ingress and terminating gateways that take every service ("*"): the
+// gateway-services table then has wildcard rows that ensureServiceTxn expands per service
+func seedGateways(im *importer) {
+	igw := &structs.IngressGatewayConfigEntry{Kind: structs.IngressGateway, Name: "igw",
+		Listeners: []structs.IngressListener{{Port: 8080, Protocol: "http", Services: []structs.IngressService{{Name: "*"}}}}}
+	tgw := &structs.TerminatingGatewayConfigEntry{Kind: structs.TerminatingGateway, Name: "tgw",
+		Services: []structs.LinkedService{{Name: "*"}}}
+	for _, e := range []structs.ConfigEntry{igw, tgw} {
+		if err := e.Normalize(); err != nil {
+			panic(err)
+		}
+		im.be.idx++
+		if err := im.store.EnsureConfigEntry(im.be.idx, e); err != nil {
+			panic(err)
+		}
+	}
 }
 
 // ---------------------------------------------------------------- export side
@@ -1764,17 +1959,22 @@ func main() {
 	tier := flag.String("tier", "quick", "quick | thorough")
 	out := flag.String("out", "", "output file (JSON lines)")
 	replay := flag.String("replay", "", "replay file written by the check")
+	probe := flag.String("probe", "", "run one directed probe and print what the real handler did")
 	flag.Parse()
 	netutil.GetAgentBindAddrFunc = netutil.GetMockGetAgentBindAddrFunc("0.0.0.0")
 	_ = acl.WildcardName
 
+	if *probe != "" {
+		doProbe(*probe)
+		return
+	}
 	if *replay != "" {
 		doReplay(*replay)
 		return
 	}
-	worlds, steps, vipWorlds, exports := 110, 16, 30, 400
+	worlds, steps, vipWorlds, respWorlds, exports := 110, 16, 30, 25, 400
 	if *tier == "thorough" {
-		worlds, steps, vipWorlds, exports = 1200, 20, 300, 4000
+		worlds, steps, vipWorlds, respWorlds, exports = 1200, 20, 300, 250, 4000
 	}
 	f, err := os.Create(*out)
 	if err != nil {
@@ -1785,12 +1985,13 @@ func main() {
 	defer wr.Flush()
 	enc := json.NewEncoder(wr)
 	id := 0
-	for wi := 0; wi < worlds+vipWorlds; wi++ {
-		vip := wi >= worlds
-		w := newWorld(*seed, wi, vip)
+	for wi := 0; wi < worlds+vipWorlds+respWorlds; wi++ {
+		vip := wi >= worlds && wi < worlds+vipWorlds
+		resp := wi >= worlds+vipWorlds
+		w := newWorld(*seed, wi, vip, resp)
 		for s := 0; s < steps; s++ {
 			c := w.event(id)
-			c.Replay = &ReplayWorld{Seed: *seed, World: wi, Step: c.Step, VIP: vip}
+			c.Replay = &ReplayWorld{Seed: *seed, World: wi, Step: c.Step, VIP: vip, Resp: resp}
 			id++
 			if err := enc.Encode(c); err != nil {
 				panic(err)
@@ -1837,7 +2038,7 @@ func doReplay(path string) {
 		}
 		return
 	}
-	w := newWorld(rw.Seed, rw.World, rw.VIP)
+	w := newWorld(rw.Seed, rw.World, rw.VIP, rw.Resp)
 	var c *Case
 	for s := 0; s <= rw.Step; s++ {
 		c = w.event(s)
